@@ -429,7 +429,8 @@ static void gen_items(void)
                 case K_ARGS:
                     it->nw = (int) vh_range(1, 4);
                     if (vh_coin(50)) { it->sp = SP_LONG_EQ; for (int k = 0; k < it->nw; k++) it->w[k] = PICK(ARGW); }
-                    else { it->trailing = 1; it->sp = o->sh && vh_coin(50) ? SP_SHORT_SEP : SP_LONG_SEP; for (int k = 0; k < it->nw; k++) it->w[k] = PICK(TRAILW); }
+                    else { it->trailing = 1; it->sp = o->sh && vh_coin(50) ? (vh_coin(40) ? SP_GLUED : SP_SHORT_SEP) : SP_LONG_SEP; for (int k = 0; k < it->nw; k++) it->w[k] = PICK(TRAILW);
+                           if (it->sp == SP_GLUED && !it->w[0][0]) it->sp = SP_SHORT_SEP;     /* "-x" + "" would be the separate spelling of a shorter list */ }
                     break;
             }
             words += 1 + (it->sp == SP_SHORT_SEP || it->sp == SP_LONG_SEP) + (it->trailing ? it->nw - 1 : 0);
@@ -466,7 +467,11 @@ static void print_items(void)
             case SP_SHORT: case SP_GLUED: case SP_SHORT_SEP:
                 if (bundle >= 0 && vh_coin(60)) { append_to_word(bundle, l); bundled = 1; }
                 else { snprintf(tmp, sizeof tmp, "-%s", l); push_word(tmp); bundle = bn - 1; }
-                if (it->sp == SP_GLUED) append_to_word(bundle, value);
+                if (it->sp == SP_GLUED) {
+                    /* -xVALUE for an argument-list option: the list is VALUE followed by the rest of the line */
+                    if (it->trailing) { append_to_word(bundle, it->w[0]); for (int k = 1; k < it->nw; k++) push_word(it->w[k]); vh_count("wf_arglist_glued", 1); }
+                    else append_to_word(bundle, value);
+                }
                 if (it->sp == SP_SHORT_SEP) { if (it->trailing) for (int k = 0; k < it->nw; k++) push_word(it->w[k]); else push_word(value); }
                 if (o->kind != K_BOOL) bundle = -1;
                 break;
